@@ -1760,8 +1760,10 @@ class FortranFile:
                 log.debug("%s !!! SELECT - Ln:%d", line, line_no)
 
             elif obj_type == "typ":
-                keywords, _ = map_keywords(obj_info.keywords)
-                new_type = Type(file_ast, line_no, obj_info.name, keywords)
+                keywords, keyword_info = map_keywords(obj_info.keywords)
+                new_type = Type(
+                    file_ast, line_no, obj_info.name, keywords, keyword_info
+                )
                 if obj_info.parent is not None:
                     new_type.set_inherit(obj_info.parent)
                 file_ast.add_scope(new_type, FRegex.END_TYPED, req_container=True)
